@@ -247,6 +247,24 @@ def run(ctx):
                 if nested:
                     ctx.violation("C07|%s|copy-aliasing|kernel" % cname, "a restored predictor shares a mutable kernel attribute with its source",
                                   {"class": cname, "shared": nested, "kernel": repr(p.cov_func)})
+                # reading a dictionary must not consume it: the second read gives the same predictor, the dictionary is unchanged
+                trips += 1
+                if canon(strip(d_once)) != canon(strip(d0)) or q_b.n_obs != p.n_obs or q_a.n_obs != p.n_obs \
+                        or canon(strip(q_b.to_dict())) != canon(strip(d0)):
+                    ctx.violation("C07|%s|dict-read-twice" % cname, "from_dict changes the dictionary it reads / a second read differs from the first",
+                                  {"class": cname, "n_obs": [repr(p.n_obs), repr(q_a.n_obs), repr(q_b.n_obs)],
+                                   "dictionary_unchanged": canon(strip(d_once)) == canon(strip(d0))})
+                # serialise, modify, serialise again: what is written is the CURRENT state
+                trips += 1
+                c2 = p.copy()
+                _ = (c2.to_json(), c2.to_dict())
+                c2.n_obs = 777
+                c2.mu = c2.mu * 0 + 0.25
+                r2 = enc.outcome(lambda: (Predictor.from_json_str(c2.to_json()), Predictor.from_dict(c2.to_dict()), c2.copy()))
+                if r2[0] != "ok" or any(r.n_obs != 777 or not same_value(r.mu, c2.mu) for r in r2[1]):
+                    ctx.violation("C07|%s|serialise-modify-serialise" % cname, "a predictor modified after a first serialisation is written with stale state",
+                                  {"class": cname, "expected_n_obs": 777,
+                                   "observed": r2[1] if r2[0] == "err" else [repr(r.n_obs) for r in r2[1]]})
                 c._state_variables.add("zzz")
                 c.mu = 123.0
                 mutated = "zzz" in p._state_variables or p.mu == 123.0
